@@ -122,9 +122,46 @@ func payloadOf(m mem.AccessReq) ab.Rec {
 	case *mem.ReadReq:
 		return ab.Rec{"k": "r", "a": pair(r.Address), "n": r.AccessByteSize, "d": []int{}, "m": []int{}, "pid": int(r.PID)}
 	case *mem.WriteReq:
-		return ab.Rec{"k": "w", "a": pair(r.Address), "n": uint64(len(r.Data)), "d": ab.Bytes(r.Data), "m": ab.Bools(r.DirtyMask), "pid": int(r.PID)}
+		return ab.Rec{"k": "w", "a": pair(r.Address), "n": uint64(len(r.Data)), "d": ab.Bytes(r.Data), "m": maskOf(r.DirtyMask), "pid": int(r.PID)}
 	}
 	panic("unknown request type")
+}
+
+// maskOf logs a dirty mask: a nil mask (every byte is written) is [-1] (NilMask in the spec).
+func maskOf(m []bool) []int {
+	if m == nil {
+		return []int{-1}
+	}
+	return ab.Bools(m)
+}
+
+// buildWrite creates a write request from a payload; M == [-1] means "no mask" (nil).
+func buildWrite(from, to sim.RemotePort, p *Payload) *mem.WriteReq {
+	b := mem.WriteReqBuilder{}.WithSrc(from).WithDst(to).WithAddress(unpair(p.A)).
+		WithData(bytesOf(p.D)).WithPID(vm.PID(p.PID))
+	if !(len(p.M) == 1 && p.M[0] == -1) {
+		mask := make([]bool, len(p.M))
+		for i, x := range p.M {
+			mask[i] = x != 0
+		}
+		b = b.WithDirtyMask(mask)
+	}
+	return b.Build()
+}
+
+// randMask: a third of the writes carry no mask, the rest one flag per byte (sometimes all false / all true).
+func randMask(rng *rand.Rand, n int) []int {
+	switch rng.Intn(6) {
+	case 0, 1:
+		return []int{-1}
+	case 2:
+		return make([]int, n)
+	}
+	m := make([]int, n)
+	for i := range m {
+		m[i] = rng.Intn(2)
+	}
+	return m
 }
 
 func rspData(m mem.AccessRsp) []int {
@@ -283,12 +320,7 @@ func (r *run) envReq(src int, p *Payload) bool {
 		req = mem.ReadReqBuilder{}.WithSrc(from).WithDst(r.top.AsRemote()).WithAddress(unpair(p.A)).
 			WithByteSize(p.N).WithPID(vm.PID(p.PID)).Build()
 	} else {
-		mask := make([]bool, len(p.M))
-		for i, x := range p.M {
-			mask[i] = x != 0
-		}
-		req = mem.WriteReqBuilder{}.WithSrc(from).WithDst(r.top.AsRemote()).WithAddress(unpair(p.A)).
-			WithData(bytesOf(p.D)).WithDirtyMask(mask).WithPID(vm.PID(p.PID)).Build()
+		req = buildWrite(from, r.top.AsRemote(), p)
 	}
 	return r.top.Deliver(req) == nil
 }
@@ -563,8 +595,8 @@ func (r *run) random(rng *rand.Rand, n int, flushes int) {
 					p = &Payload{K: "w", A: pair(addr), PID: pid}
 					for i := 0; i < sz; i++ {
 						p.D = append(p.D, rng.Intn(256))
-						p.M = append(p.M, rng.Intn(2))
 					}
+					p.M = randMask(rng, sz)
 				}
 				if lastP != nil && rng.Intn(8) == 0 { // exact twin of the previous access: indistinguishable on the wire
 					p = lastP
@@ -639,8 +671,8 @@ func (r *run) phased(rng *rand.Rand, n int, flush bool) {
 			p = &Payload{K: "w", A: pair(addr), PID: pid}
 			for k := 0; k < 1+rng.Intn(6); k++ {
 				p.D = append(p.D, rng.Intn(256))
-				p.M = append(p.M, rng.Intn(2))
 			}
+			p.M = randMask(rng, len(p.D))
 		}
 		if r.envReq(1+rng.Intn(3), p) {
 			issued++
